@@ -174,17 +174,21 @@ def timed(fn: Callable[[], Any], nchars: int = 0) -> Tuple[str, int]:
         t0 = time.process_time()
         try:
             try:
-                signal.setitimer(signal.ITIMER_PROF, budget * attempt)
-                fn()
-                out = "ok"
-            finally:
-                signal.setitimer(signal.ITIMER_PROF, 0)
-        except TemplateSyntaxError:
-            out = "tse"
-        except _Timeout:
+                try:
+                    signal.setitimer(signal.ITIMER_PROF, budget * attempt)
+                    fn()
+                    out = "ok"
+                finally:
+                    signal.setitimer(signal.ITIMER_PROF, 0)
+            except TemplateSyntaxError:
+                out = "tse"
+            except _Timeout:
+                out = "hang"
+            except BaseException as ex:  # noqa: BLE001 - the class is the observation
+                out = "exc:" + type(ex).__name__
+            cpu = time.process_time() - t0
+        except _Timeout:                 # the signal of a timer that expired just as fn() returned
             out = "hang"
-        except BaseException as ex:  # noqa: BLE001 - the class is the observation
-            out = "exc:" + type(ex).__name__
         cpu = time.process_time() - t0
         if out != "hang" and cpu <= budget:
             break
